@@ -211,6 +211,8 @@ def gen_rpms_op(rng, pool, invalid=None):
             "category": category, "srpm_nevra": None if use_src else render_nevra(rng, pkg["src"])}
     if rng.random() < 0.08:
         args["path"] = rng.choice(["café/", "日本/", "Ünïcode dir/"]) + args["path"]      # paths are free text
+    elif rng.random() < 0.08:
+        args["path"] = rng.choice(["./" + args["path"], args["path"].replace("/", "//", 1), args["path"].replace("/os/", "/os/./", 1)])
     meta = {"nevra_parts": dict(parts), "srpm_parts": None if use_src else dict(pkg["src"]), "invalid": invalid}
     if invalid is None:
         return {"kind": "rpms", "args": args, "meta": meta}
@@ -367,6 +369,10 @@ def gen_extra_op(rng, invalid=None):
             "size": rng.choice([0, 1, 18092, 2 ** 32 + 1]), "checksums": checksums}
     if rng.random() < 0.1:
         args["path"] = args["path"].rsplit("/", 1)[0] + "/" + rng.choice(["LÉEME", "許諾.txt", "Лицензия", "licence – fr.txt"])
+    elif rng.random() < 0.12:
+        # relative paths in a spelling a normaliser would rewrite: they are recorded as given
+        args["path"] = rng.choice(["./" + args["path"], args["path"].replace("/", "//", 1), args["path"].replace("/os/", "/os/./", 1),
+                                   args["path"].replace("/os/", "/os/../os/", 1), args["path"] + "/"])
     meta = {"invalid": invalid}
     if invalid == "empty-variant":
         args["variant"] = rng.choice(["", None])
